@@ -271,6 +271,10 @@ pub fn extra_cases(prop: &str, seed: u64, first_id: usize, tier: Tier) -> Vec<(S
             let mut v = crate::gen_special::c04_tables(seed, first_id, tier.pick(60, 600));
             let lb: Vec<_> = crate::gen_special::c06_later_base_shapes(first_id + v.len()).into_iter().filter(|c| c.2 == 8).collect();
             v.extend(lb);
+            // hierarchies of three levels in which virtual functions of later bases are
+            // re-exposed (and renamed on a clash) more than once
+            let deep = crate::gen_special::c07_cases(seed, first_id + v.len(), tier.pick(24, 240));
+            v.extend(deep);
             v
         }
         "C15" => {
